@@ -67,7 +67,7 @@ def main():
             'guard': 'cfg(kani) (set by cargo kani) and --cfg ipp_verif (native replay of the URL-mapping wrapper)',
             'enable': 'cargo kani compiles /repo/ipp with cfg(kani); the replay crate builds /repo/ipp with the guard off (RUSTFLAGS="--cfg ipp_verif" only for the C14 wrapper)',
             'baseline_off_cmd': 'cd /repo && cargo test --workspace --no-fail-fast --offline',
-            'source_commits': ['2c0d47f', 'f2aed9c', 'aac973f', '40f0944', '36a6ac5'],
+            'source_commits': ['2c0d47f', '630e53c', 'e75a164', '2a9eb0e', '30233e9', 'ce3583f'],
             'add_only': True,
         },
         'engines': [
